@@ -128,6 +128,24 @@ def run(prog, chk):
             nsw += 1
             chk.ob('R17.6', f, c.ln, not sw, 'evaluation %s is conditional on the output switch %s: with echo off, side effects inside the operand (a measurement, a call) are skipped and '
                    'tracked outcomes change with the --echo mode' % (SX.show(c.e)[:40], sw), key='switch-guards-eval:%s' % f.short, nontrivial=bool(sw))
+    # each switch governs its own output only: the echo lines of a run are written out at the end of every run (the CLI silences the
+    # *warnings* of all shots but the last — if the flush hung on that switch, `--echo=all` would print one shot's echoes)
+    bufs = [x['name'] for x in R.ev['fields'] if x['type'].replace(' ', '') in ('std::vector<std::string>',) and 'echo' in x['name'].lower()]
+    flushers = []
+    for f in [x for x in R.ev_methods() if x.body]:
+        reads = any(lp['k'] == 'forrange' and SX.is_this_member(SX.strip(lp['range'])) and SX.strip(lp['range'])['name'] in bufs and
+                    any(x['k'] == 'opcall' and x.get('op') == '<<' for x in SX.walk(lp['body'])) for lp in SX.walk(f.body, into_lambdas=False))
+        if reads:
+            flushers.append(f)
+    exf = R.ev_method('execute')
+    gx = prog.cfg(exf)
+    if len(flushers) == 1:
+        fc = [c for c in gx.calls(lambda e: e['k'] == 'mcall' and e.get('callee') == flushers[0].name)]
+        sw = [SX.show(ce) for c in fc for ce, pol, _ in gx.guards(c) if any(x['k'] == 'member' and x['name'] in cfgm for x in SX.walk(ce))]
+        chk.ob('R17.6', exf, fc[0].ln if fc else exf.ln, bool(fc) and gx.must_follow(gx.entry, fc) and not sw,
+               'every run ends by writing out its echo lines (%s), on every normal path and under no presentation switch (%s)' % (flushers[0].short, sw or 'none'), key='echo-flush-unconditional')
+    else:
+        chk.vacuous.append('echo flush function not resolved (%d candidates)' % len(flushers))
     # ---- R17.3b: a reset invalidates the qubit's recorded outcome --------------------------------------------------
     from ..kernels import ArgSummary, arg
     from ..kcanon import Canon
